@@ -103,3 +103,7 @@ CORPUS += [
     T('c02-benign-newick-options-shared-in-a-dictionary', TM, "        tree = Tree.get(\n            data=data['newick'],\n            schema='newick',\n            preserve_underscores=True,\n            rooting='force-rooted',\n            taxon_namespace=taxon_namespace,\n        )",
       "        opts = dict(schema='newick', preserve_underscores=True, rooting='force-rooted', taxon_namespace=taxon_namespace)\n        tree = Tree.get(data=data['newick'], **opts)", benign=True),
 ]
+CORPUS += [
+    T('c02-stop-symbol-stripped-line-by-line', AL, "                sequences[taxon] += line\n", "                sequences[taxon] += line.rstrip('*')\n", expect=[('C02.N', 'evolution::sequence-symbols-are-kept-as-read')]),
+    T('c02-benign-trailing-white-space-stripped', AL, "                sequences[taxon] += line\n", "                sequences[taxon] += line.rstrip()\n", benign=True),
+]
